@@ -415,17 +415,49 @@ def rule_x7(chk: Check):
     from .. import cpygram
     cp = cpygram.cpython_grammar()
     xg = repo.gram_x()
+
+    def rename_refs(sig, ren):
+        if isinstance(sig, tuple):
+            if len(sig) == 2 and sig[0] == "ref" and isinstance(sig[1], str):
+                return ("ref", ren.get(sig[1], sig[1]))
+            return tuple(rename_refs(x, ren) for x in sig)
+        if isinstance(sig, list):
+            return [rename_refs(x, ren) for x in sig]
+        return sig
+    # a rule given a new name everywhere is the same rule: a reference rule that is missing is looked for among the rules CPython
+    # does not have, by structure (with the new name read as the old one)
+    ren: dict[str, str] = {}
+    fresh = [r for r in xg.rules if r not in cp.rules]
+    for name in list(cpygram.equal_rules()) + sorted({n for n, _, _ in cpygram.equal_alts()}):
+        if name in xg.rules or name not in cp.rules or name in ren.values():
+            continue
+        want = cpygram.rule_sig(cp.rules[name])
+        cands = [r for r in fresh if r not in ren and rename_refs(cpygram.rule_sig(xg.rules[r]), {r: name}) == want]
+        if len(cands) == 1:
+            ren[cands[0]] = name
+    if ren:
+        back = {v: k for k, v in ren.items()}
+        chk.units["x7_renamed_rules"] = dict(ren)
+    else:
+        back = {}
+    _rule_sig = cpygram.rule_sig
+
+    def xsig(name):
+        return rename_refs(_rule_sig(xg.rules[back.get(name, name)]), ren)
+
+    def has(name):
+        return back.get(name, name) in xg.rules
     for name in cpygram.equal_rules():
         chk.count("X7-cpython-sibling")
-        if name not in xg.rules:
+        if not has(name):
             chk.fail("X7-cpython-sibling", name, repo.GRAM_X, f"Python rule `{name}` has disappeared from the grammar")
             continue
         if name not in cp.rules:
             raise AnalysisError(f"reference rule {name} missing from the vendored CPython grammar")
-        a, b = cpygram.rule_sig(xg.rules[name]), cpygram.rule_sig(cp.rules[name])
-        if a != b and sorted(map(repr, a)) == sorted(map(repr, b)) and _order_irrelevant(xg, name, a, b):
+        a, b = xsig(name), cpygram.rule_sig(cp.rules[name])
+        if a != b and sorted(map(repr, a)) == sorted(map(repr, b)) and _order_irrelevant(xg, back.get(name, name), _rule_sig(xg.rules[back.get(name, name)]), rename_refs(b, back)):
             continue  # same alternatives; the ones that changed places start with different tokens, so ordered choice cannot tell
-        chk.require(a == b, "X7-cpython-sibling", name, str(xg.rules[name].pos),
+        chk.require(a == b, "X7-cpython-sibling", name, str(xg.rules[back.get(name, name)].pos),
                     f"`{name}` was structurally CPython's own rule and no longer is — {cpygram.describe_diff(a, b)}: text in the Python "
                     f"lexicon is now accepted or parsed differently from CPython")
     # rules that already differ from CPython's as a whole: the alternatives they still shared with it on the pinned tree
@@ -438,7 +470,8 @@ def rule_x7(chk: Check):
         if name not in cp.rules:
             raise AnalysisError(f"reference rule {name} missing from the vendored CPython grammar")
         b = cpygram.rule_sig(cp.rules[name])
-        a = cpygram.rule_sig(xg.rules[name]) if name in xg.rules else None
+        a = xsig(name) if has(name) else None
+        xname = back.get(name, name)
         for j in idxs:
             chk.count("X7-cpython-sibling")
             key = f"{name}#cpython-alt{j}"
@@ -447,7 +480,7 @@ def rule_x7(chk: Check):
                 continue
             if j >= len(b):
                 raise AnalysisError(f"reference alternative {name}#{j} missing from the vendored CPython grammar")
-            chk.require(b[j] in a, "X7-cpython-sibling", key, str(xg.rules[name].pos),
+            chk.require(b[j] in a, "X7-cpython-sibling", key, str(xg.rules[xname].pos),
                         f"`{name}` no longer has CPython's alternative {b[j]}: an item, look-ahead or cut of it was changed, so text in the "
                         f"Python lexicon is accepted or parsed differently from CPython")
         # relative order of the shared alternatives (ordered choice) as on the pinned tree, unless they start with different tokens
@@ -458,8 +491,8 @@ def rule_x7(chk: Check):
             ok = pos == sorted(pos)
             if not ok:
                 ref = [b[j] for j in shared]
-                ok = _order_irrelevant(xg, name, a, ref, only=set(map(repr, ref)))
-            chk.require(ok, "X7-cpython-sibling", f"{name}#order", str(xg.rules[name].pos),
+                ok = _order_irrelevant(xg, xname, rename_refs(a, back), rename_refs(ref, back), only=set(map(repr, rename_refs(ref, back))))
+            chk.require(ok, "X7-cpython-sibling", f"{name}#order", str(xg.rules[xname].pos),
                         f"the alternatives `{name}` shares with CPython's rule are tried in a different order than before (ordered choice: "
                         f"a different one wins)")
     chk.floor("X7-cpython-sibling", 200)
